@@ -176,7 +176,14 @@ def run(prop, spec, tier, seed, t0):
     if rc != 0:
         build_error = "cargo build of the executor against /repo failed:\n" + txt
     rc2, txt2 = vlib.build_driver() if not lean["errors"] else (0, "")
-    ops = list(gens.generate(prop, tier, seed))
+    # a changed source pin (normalised text of a modelled file differs from the committed pin)
+    # is not a failure, but the correspondence then uses the deep generators for this run
+    gen_tier = tier
+    if tier == "quick" and ex.get("pins_changed"):
+        gen_tier = "thorough"
+    ops = list(gens.generate(prop, gen_tier, seed, budget=400000 if gen_tier != tier else None))
+    if gen_tier != tier and len(ops) > 1200000:
+        ops = ops[:1200000]
     model = impl = None
     crashes = []
     real, corr, stats = [], [], dict(families={}, distinct_nontrivial=0, agreed=0)
@@ -202,7 +209,7 @@ def run(prop, spec, tier, seed, t0):
 
     # search for a failing input when something broke but nothing real was found yet
     searched = 0
-    if broken and not real and build_error is None and tier == "quick" and os.path.exists(vlib.DRIVER):
+    if broken and not real and build_error is None and gen_tier == "quick" and os.path.exists(vlib.DRIVER):
         ops2 = list(gens.generate(prop, "thorough", seed + 1, budget=200000))
         m2, i2, c2, _ = vlib.run_grouped(ops2)
         r2, _, _ = analyse(prop, spec, ops2, m2, i2, c2)
@@ -251,7 +258,7 @@ def run(prop, spec, tier, seed, t0):
         traces_validated_against_impl=stats["agreed"],
         families=stats["families"], correspondence_disagreements=len(corr),
         executor_crashes=len(crashes), extractor_broken=ex.get("broken", []),
-        pins_changed=ex.get("pins_changed", []), search_inputs=searched,
+        pins_changed=ex.get("pins_changed", []), generator_tier=gen_tier, search_inputs=searched,
         exhaustive=gens.exhaustive(prop, tier),
     )
     if tier == "thorough" and not lean["errors"]:
